@@ -135,7 +135,7 @@ def gen_doc(rng, kind, pal, tag):
     def pick():
         return rng.choice(cols_all)
 
-    def frame(nr, nc, key=None):
+    def frame(nr, nc, key=None, kp=""):
         cols = [f"{tag}c{j}" for j in range(nc)]
         rows = [[f"{tag}{i}_{j}" for j in range(nc)] for i in range(nr)]
         if key:
@@ -145,7 +145,7 @@ def gen_doc(rng, kind, pal, tag):
             for i in range(nr):
                 if i and rng.random() < 0.45:
                     v += 1
-                ks.append(f"G{v}")
+                ks.append(f"{kp}G{v}")
             rows = [[ks[i]] + r for i, r in enumerate(rows)]
         return dict(cols=cols, rows=rows)
 
@@ -188,6 +188,19 @@ def gen_doc(rng, kind, pal, tag):
         spec["body"] = b
         spec["page"] = dict(nrow=rng.randint(5, 9))
         spec["headers"] = [dict(text=[f"H{j}" for j in range(nc)], text_color=pick())]
+    elif kind == "groupby":
+        # group_by over >= 2 pages: the page-start rows get their group value back (suppress, then restore)
+        nr, nc = 5, 1
+        spec["df"] = frame(nr, nc, key=True, kp=tag)     # group values differ between the documents
+        b = dict(text_color=[x, pick()])
+        b["group_by"] = ["grp"]
+        spec["body"] = b
+        spec["page"] = dict(nrow=4)
+        spec.pop("title", None)
+        spec.pop("page_header", None)
+        spec["headers"] = [dict(text=["grp"] + [f"H{j}" for j in range(nc)], text_color=pick())]
+        spec.pop("footnote", None)
+        spec.pop("source", None)
     elif kind == "multi":
         spec["kind"] = "multi"
         n1, n2 = rng.randint(2, 3), rng.randint(2, 3)
@@ -618,6 +631,7 @@ def prepare_sets(res, tier):
     """document sets + fresh solo strings + traced solo logs; fills _BASE"""
     plan = [("pair-tables", ["table", "table"] if tier == "thorough" else ["tsmall", "tsmall"])]
     plan += [("pair-fonts", ["fontmix", "font14"])]
+    plan += [("pair-groupby", ["groupby", "groupby"])]
     if tier == "thorough":
         plan += [("pair-multi-pageby", ["multi", "pageby"]), ("pair-figure-subline", ["figure", "subline"]),
                  ("triple", ["table", "pageby", "figure"])]
@@ -723,7 +737,7 @@ def run_sched(res, tier, n2t):
             fams += sampled(calls, gp, rng, 200 if tier == "quick" else 700, 2)
             fams += sampled(calls, gp, rng, 200 if tier == "quick" else 700, 3)
             fams += guided3(calls, gp, rng, 200 if tier == "quick" else 700)
-        if name == "pair-fonts" and tier == "quick":
+        if name in ("pair-fonts", "pair-groupby") and tier == "quick":
             # the document that switches font sizes is parked at every library call boundary while the other one is
             # encoded from start to finish
             fams += [f for f in single_preemption(n, calls) if f[1][0][0] == 0]
